@@ -42,7 +42,8 @@ def s_line():
 
 def s_pair():
     return st.fixed_dictionaries({"kind": st.just("pair"), "p1": pt(), "w1": dirn(), "p2": pt(), "w2": dirn(),
-                                  "rel": st.sampled_from(["general", "parallel", "antiparallel", "intersecting", "coincident"]),
+                                  "rel": st.sampled_from(["general", "parallel", "antiparallel", "intersecting", "coincident", "parallel_close"]),
+                                  "gap": gens.logmag(-9, 0),
                                   "k": gens.logmag(-2, 2), "lam": gens.fl(-5, 5), "off": dirn()})
 
 
@@ -243,6 +244,14 @@ def _pair(case):
     p2, w2 = arr(case["p2"]), arr(case["w2"])
     if rel == "parallel":
         w2 = w1 * k
+    elif rel == "parallel_close":
+        # parallel lines a small distance apart: gap x data magnitude, 1e-9 .. 1 (distinct lines, however close)
+        w2 = w1 * k
+        perp = np.cross(u1, refs.unit(case["off"]))
+        if np.linalg.norm(perp) < 1e-2:
+            perp = np.cross(u1, [1.0, 0, 0]) if abs(u1[0]) < 0.9 else np.cross(u1, [0, 1.0, 0])
+        perp = refs.unit(perp)
+        p2 = p1 + perp * case.get("gap", 1e-3) * max(1.0, float(np.max(np.abs(p1)))) + u1 * case["lam"]
     elif rel == "antiparallel":
         w2 = -w1 * k
     elif rel == "intersecting":
@@ -260,7 +269,7 @@ def _pair(case):
     ok2, l2 = c.lib("PointDir", L.Plucker.PointDir, list(p2), list(w2))
     if not (ok1 and ok2):
         return c.out
-    par = rel in ("parallel", "antiparallel", "coincident")
+    par = rel in ("parallel", "antiparallel", "coincident", "parallel_close")
     n1, n2 = float(np.linalg.norm(w1)), float(np.linalg.norm(w2))
     # parallelism
     okp, r = c.lib("isparallel", lambda: l1.isparallel(l2, tol=TOL * max(1.0, n1 * n2)))
@@ -282,7 +291,7 @@ def _pair(case):
         except Exception:  # noqa
             c.fail("distance/scalar", "distance returned %r" % (d,))
         else:
-            c.eq("distance/value", df, dtrue, TOL * 10, S / (1.0 if par else max(sinang, 1e-300)))
+            c.eq("distance/value", df, dtrue, TOL * (2 if par else 10), S / (1.0 if par else max(sinang, 1e-300)))
     # common perpendicular
     okc, cp = c.lib("commonperp", l1.commonperp, l2)
     if okc:
